@@ -176,17 +176,18 @@ func runC12case(t *vf.T, c c12case) {
 				}
 				doScan(op.R, r, k, fmt.Sprintf("(step %d)", oi))
 			case "discard":
-				r.res.Discard(bgctx)
+				// mark first: a concurrent scan may observe the discard before it returns
 				mu.Lock()
 				r.damage()
 				mu.Unlock()
+				r.res.Discard(bgctx)
 				t.Count("discards", 1)
 			case "kill":
 				if ls.Sys != nil {
+					mu.Lock()
+					killed = true
+					mu.Unlock()
 					if ls.Sys.Kill(nil) {
-						mu.Lock()
-						killed = true
-						mu.Unlock()
 						t.Count("machines_killed", 1)
 					}
 				}
@@ -341,12 +342,12 @@ func runC12(r *vf.Runner) {
 			r.Case(c, func(t *vf.T) { runC12case(t, c) })
 		}
 	}
-	for i := 0; i < nl; i++ {
-		c := genC12(rnd.Fork(), localP4, maxOps)
-		r.Case(c, func(t *vf.T) { runC12case(t, c) })
-	}
-	for i := 0; i < nb; i++ {
-		c := genC12(rnd.Fork(), bmk, maxOps)
-		r.Case(c, func(t *vf.T) { runC12case(t, c) })
+	for i := 0; i < nl+nb; i++ {
+		conf := localP4
+		if i >= nl {
+			conf = bmk
+		}
+		f := rnd.Fork()
+		r.CaseLazy(func() any { return genC12(f, conf, maxOps) }, func(t *vf.T, d any) { runC12case(t, d.(c12case)) })
 	}
 }
